@@ -42,6 +42,10 @@ def obligations(tier):
         obs.append(dict(name="aws-readkeys-lines-%d-%d" % (l0, l1), harness="rdkeys.c", entry="h_readkeys", defs=["L0=%d" % l0, "L1=%d" % l1, "NLINES=2"], srcs=["util/insecure_memzero.c"], unwind=44, unwindset=["insecure_memzero_func.0:50"], timeout=to, flags=["--memory-leak-check"],
                         claim="aws_readkeys on every 2-line file with lines of %d and %d arbitrary non-NUL bytes: stays inside the line buffer and the strings; 0 only if every line is ACCESS_KEY_(ID|SECRET)=value<EOL> with one of each; file closed exactly once; nothing leaked on failure" % (l0, l1),
                         bounds="2 lines of %d and %d bytes" % (l0, l1), stubs=["fopen/fgets/ferror/fclose -> scripted file", "strdup -> exact-size copy", "strcspn -> C model validated against glibc", "warn -> empty"]))
+    for fl in [0, 1, 2, 5]:
+        obs.append(dict(name="readpass-file-len%d" % fl, harness="rdpass.c", entry="h_readpass", defs=["FL=%d" % fl], unwind=fl + 4, timeout=to, flags=["--memory-leak-check"],
+                        claim="readpass_file on every file of %d arbitrary non-NUL bytes over a scripted stdio: stays inside the 2048-byte buffer; success exactly for a single line (trailing LF / CR LF allowed) with clean read and close; passphrase = the line without its EOL in an exact-size string; the whole buffer is wiped once on every path; file closed once; no leak" % fl,
+                        bounds="file length %d" % fl, stubs=["fopen/fgets/fgetc/ferror/fclose -> scripted file (C11 7.21.7 semantics)", "insecure_memzero -> recording stub (its body is checked in C20's other obligations)", "strdup/strcspn -> C models"]))
     return obs
 TRUSTED = ["CBMC 6.11 C semantics, pointer/bounds checks", "cadical"]
 ASSUMPTIONS = []
